@@ -54,7 +54,17 @@ func init() {
 
 func verifVisitor(v *parser.FHIRPathVisitor) {
 	if verifTrace.file != nil {
-		v.Transform = func(e expr.Expression) expr.Expression { return &verifNode{inner: e} }
+		v.Transform = func(e expr.Expression) expr.Expression {
+			// the visitor hands every node to the transform except the indexer it puts into a sequence
+			if s, ok := e.(*expr.ExpressionSequence); ok {
+				for i, x := range s.Expressions {
+					if _, isIndex := x.(*expr.IndexExpression); isIndex {
+						s.Expressions[i] = &verifNode{inner: x}
+					}
+				}
+			}
+			return &verifNode{inner: e}
+		}
 	}
 }
 
@@ -64,6 +74,8 @@ type verifNode struct {
 
 func verifDescribe(e expr.Expression) (kind, param string) {
 	switch n := e.(type) {
+	case *verifNode:
+		return "Wrap", "" // a node the visitor transformed twice (unary plus)
 	case *expr.ExpressionSequence:
 		return "Sequence", strconv.Itoa(len(n.Expressions))
 	case *expr.IdentityExpression:
@@ -185,7 +197,7 @@ func (n *verifNode) Evaluate(ctx *expr.Context, input system.Collection) (system
 	depth := ev.depth
 	kind, param := verifDescribe(n.inner)
 	in, inh := ev.verifItems(input)
-	ev.emit(map[string]any{"e": "B", "ev": ev.id, "d": depth, "k": kind, "p": param, "now": strconv.FormatInt(ctx.Now.UnixNano(), 10), "in": in, "inh": inh})
+	ev.emit(map[string]any{"e": "B", "ev": ev.id, "d": depth, "k": kind, "p": param, "now": strconv.FormatInt(ctx.Now.UnixNano(), 10), "in": in, "inh": inh, "ic": verifClass(input)})
 	defer func() {
 		if r := recover(); r != nil {
 			verifTrace.Lock()
